@@ -55,8 +55,13 @@ func isAllowedPossibleValue(opt *Option, value interface{}) error {
 		if valueType != nil && valueType.Comparable() {
 			// loading int's from the configuration JSON does not preserve the correct type
 			// as we get float64 instead. Make sure to convert them before.
-			if reflect.TypeOf(val.Value).ConvertibleTo(valueType) {
-				compareAgainst = reflect.ValueOf(val.Value).Convert(valueType).Interface()
+			// Only use the conversion if it is lossless, so that an allowed 456 does not match uint8(200).
+			allowedType := reflect.TypeOf(val.Value)
+			if allowedType.ConvertibleTo(valueType) && valueType.ConvertibleTo(allowedType) && allowedType.Comparable() {
+				converted := reflect.ValueOf(val.Value).Convert(valueType)
+				if converted.Convert(allowedType).Interface() == val.Value {
+					compareAgainst = converted.Interface()
+				}
 			}
 			if compareAgainst == value {
 				return nil
